@@ -24,7 +24,7 @@ C01_OPS = ["add", "sub", "mul", "neg", "abs", "min", "max", "incr", "decr", "inc
 C07_OPS = ["bitwise_and", "bitwise_or", "bitwise_xor", "bitwise_andnot", "bitwise_not", "bitwise_lshift_s", "bitwise_rshift_s",
            "bitwise_lshift_b", "bitwise_rshift_b", "rotl_s", "rotr_s", "rotl_b", "rotr_b"]
 C03_OPS = ["eq", "neq", "lt", "le", "gt", "ge", "select", "bool_and", "bool_or", "bool_xor", "bool_not", "bool_lnot", "bool_eq", "bool_neq",
-           "bool_andnot", "bool_land", "bool_lor", "bool_any", "bool_all", "bool_none", "bool_count", "bool_mask", "bool_from_mask"]
+           "bool_andnot", "bool_land", "bool_lor", "bool_any", "bool_all", "bool_none", "bool_count", "bool_mask", "bool_from_mask"] + [o for o in entries.OPS if o.startswith("bool_cast_to_")]
 
 C02_OPS = ["add", "sub", "mul", "div", "sqrt", "neg", "abs", "copysign", "bitofsign", "bitwise_and", "bitwise_or", "bitwise_xor",
            "bitwise_andnot", "bitwise_not", "fma", "fms", "fnma", "fnms", "min", "max", "isnan", "isinf", "isfinite", "is_flint",
